@@ -125,7 +125,9 @@ def cases(tier, seed):
                 for ea in (-60000.0, 20000.0, 120000.0):
                     for stated in (True, False):
                         for units in ([U.Units.kg_m2_h_kPa, "GPU"] if q else [U.Units.kg_m2_h_kPa, "SI", "GPU"]):
-                            qs = queries[::2] + [temps[0]] if q else queries + temps[:n]
+                            # incl. queries at an experiment's temperature and a few millikelvin beside it ("equal" is exact equality)
+                            near = [temps[0] + 1e-3, temps[0] - 5e-3] + ([temps[n - 1] + 2e-3] if n > 1 else [])
+                            qs = (queries[::2] + [temps[0]] + near[:2]) if q else (queries + temps[:n] + near + [temps[n // 2] - 1e-6])
                             for t in qs:
                                 out.append({"component": comp, "pidx": ci, "temps": temps[:n], "order": order, "ea": ea,
                                             "stated": stated, "units": units, "T": t})
